@@ -11,6 +11,7 @@ import (
 	"time"
 
 	"github.com/nyaruka/gocommon/dates"
+	"github.com/nyaruka/gocommon/jsonx"
 	"github.com/nyaruka/gocommon/urns"
 	"github.com/nyaruka/gocommon/uuids"
 	"github.com/nyaruka/goflow/assets"
@@ -52,6 +53,7 @@ type CallObs struct {
 	Session  flows.Session
 	Sprint   flows.Sprint
 	Before   []byte // session JSON before the call (resumes)
+	CtxBefore string // what the session shows through its API before the call (CurrentContext, ParentRun)
 	After    []byte // session JSON after the call
 	PrevLens []int  // number of events per run before the call
 	Assets   *Assets
@@ -503,6 +505,7 @@ func (w *world) resume(s flows.Session, op *Op) (*CallObs, flows.Session) {
 		s = s2
 	}
 	obs.Before = mustJSON(s)
+	obs.CtxBefore = renderContext(s)
 	obs.PrevLens = eventLens(s)
 	var res flows.Resume
 	switch op.Kind {
@@ -530,6 +533,21 @@ func (w *world) resume(s flows.Session, op *Op) (*CallObs, flows.Session) {
 	obs.Millis = time.Since(t0).Milliseconds()
 	finish(obs, s, sp, err, p, hung)
 	return obs, s
+}
+
+// renderContext: what a host sees of the session through the API besides its JSON - the expression context of the
+// current run (what templates evaluate against) and whether the session shows a parent run
+func renderContext(s flows.Session) (out string) {
+	defer func() {
+		if r := recover(); r != nil {
+			out = fmt.Sprint("panic: ", r)
+		}
+	}()
+	var ctx []byte
+	if c := s.CurrentContext(); c != nil {
+		ctx, _ = jsonx.Marshal(c)
+	}
+	return fmt.Sprintf("parent_run_loaded=%v context=%s", s.ParentRun() != nil, ctx)
 }
 
 // tamperRuns sets every run's status "waiting" to "active" in a session JSON
